@@ -12,7 +12,7 @@ RULE = ("each logical call (engine, sequences[, query], k, mode) is executed for
         "coordinates; every invalid-argument class must raise on every engine; non-trivial = expected set non-empty")
 ASSUMPTIONS = ["two-collection calls vary one container at a time (star) plus both-permuted, not the full 7x7 product",
                "an invalid argument is 'rejected' when any exception is raised"]
-REQUIRED_CLASSES = {"all": ["series-permuted-labels", "series-shifted-labels", "coo-output", "ndarray-output", "invalid-argument", "non-square-matrix", "non-integer-distances", "asymmetric-result"]}
+REQUIRED_CLASSES = {"all": ["series-permuted-labels", "series-shifted-labels", "coo-output", "ndarray-output", "invalid-argument", "non-square-matrix", "non-integer-distances", "asymmetric-result", "more-queries-than-references"]}
 MIN_OUTCOMES = 10
 
 CONTAINERS = ("list", "tuple", "ndarray", "series", "series_shift", "series_perm", "series_str")
@@ -45,8 +45,9 @@ def box(seqs, container):
 
 
 def halflev(a, b):
+    # non-integer and not exactly representable in float32 (0.3, 0.6, ...)
     from mc.refmodel import ref_lev
-    return ref_lev(a, b) / 2
+    return ref_lev(a, b) * 0.3
 
 
 def _cd(mode):
@@ -57,7 +58,7 @@ def expected_for(seqs, k, mode, queries=None):
     """reference triplets; mode 'halflev' is a callable custom distance with non-integer values (both radii: lev <= k, custom <= inf)"""
     if mode == "halflev":
         base = neighbors_within(list(seqs), k, queries=None if queries is None else list(queries))
-        return {(q, r, d / 2) for q, r, d in base}
+        return {(q, r, d * 0.3) for q, r, d in base}
     return neighbors_within(list(seqs), k, queries=None if queries is None else list(queries), dist=mode)
 
 
@@ -172,6 +173,12 @@ def spaces(tier):
                 for query in E.lists(E.universe("AC", 1), 2):
                     yield ("two", ref, query)
 
+    def gen_wide():
+        U1 = E.universe("AC", 1)
+        for ref in E.lists(U1, 3, minlen=2):
+            for query in E.lists(U1, 5 if not q else 4, minlen=len(ref) + 1):
+                yield ("wide", ref, query)
+
     def gen_invalid():
         for name, _ in INVALID:
             for eng in SELF_ENG + ("symdel2",):
@@ -185,6 +192,7 @@ def spaces(tier):
         Space("self-search-formats-x-containers", gen_self, "Lists(U(AC,2),3|4) x k in 1..2 x {levenshtein, hamming, callable with non-integer values} x 4 engines x 3 output types x 7 containers (hash_based k=1 only)", shards=64),
         Space("two-collection-formats-x-containers", gen_two, "ref in Lists(U(AC,2),2[,3]) x query in Lists(U(AC,1|2),2) x k in 1..2 x 3 distance modes x 4 engines x 3 outputs x container star (13 combinations + both permuted)", shards=64),
         Space("asymmetric-results-in-matrix-form", gen_maxret, "Lists(U(AC,2),4), N>=3 x kdtree max_returns in 1..2 x k in 1..2 x {levenshtein, hamming} x {coo_matrix, ndarray} x {list, Series with permuted labels}: matrix == matrix of the triplets the same call reports", shards=32),
+        Space("more-queries-than-references", gen_wide, "ref in Lists(U(AC,1),2..3) x query in Lists(U(AC,1),len(ref)+1..4|5): every matrix output of the four two-collection engines (flat (row, column) bookkeeping must use the right stride)", shards=32),
         Space("invalid-arguments", gen_invalid, "%d invalid-argument classes x 5 engines x 3 containers" % len(INVALID)),
     ]
 
@@ -245,6 +253,14 @@ def check_case(case, acc):
                     for out in OUTPUTS:
                         for cr, cq in (combos if mode != "halflev" else combos[:1] + combos[3:6] + combos[-1:]):
                             _one_two(acc, eng, ref, query, k, mode, out, cr, cq, expected)
+    elif kind == "wide":
+        _, ref, query = case
+        acc.cls("more-queries-than-references")
+        for k in (1, 2):
+            expected = expected_for(ref, k, "lev", query)
+            for eng in TWO_ENG:
+                for out in ("coo_matrix", "ndarray"):
+                    _one_two(acc, eng, ref, query, k, "lev", out, "list", "list", expected)
     elif kind == "two1":
         _, eng, ref, query, k, mode, out, cr, cq = case
         _one_two(acc, eng, ref, query, k, mode, out, cr, cq, expected_for(ref, k, mode, query))
